@@ -310,7 +310,7 @@ class C11(SimCheck):
                    "allows 1e-9 relative"]
     force_cfg = {"hasMob": True, "hasTimer": True}
     want_pos = True
-    profile = {"w": {"setTimer": 3, "cancelTimer": 0, "send": 0.6, "broadcast": 0.3, "goto": 4, "setSpeed": 2,
+    profile = {"w": {"setTimer": 3, "cancelTimer": 0, "send": 0.6, "broadcast": 0.3, "goto": 4, "gotoHere": 1.5, "setSpeed": 2,
                      "setRange": 0, "gotoGeo": 0},
                "pTelemetry": 0.3, "speeds": [10.0, 4.0, 0.5, 64.0, 0.0, 3.3, 17.7, 1.0, 25.0],
                "horizon": 24 * 1024, "budget": 90, "maxReq": 3}
